@@ -1,0 +1,19 @@
+//go:build verif
+
+package p2p
+
+import "github.com/canopy-network/canopy/lib"
+
+// This file is only compiled with `-tags verif`. VerifYield lets the deterministic-simulation
+// harness in /verif park a sending goroutine at the three points of Stream.queueSends/queueSend
+// where interleavings between concurrent senders are decided. It is nil (a no-op) unless set.
+var VerifYield func(site string, topic lib.Topic)
+
+func verifYield(site string, topic lib.Topic) {
+	if f := VerifYield; f != nil {
+		f(site, topic)
+	}
+}
+
+// VerifMaxDataChunkSize exposes the packet payload limit to the harness.
+const VerifMaxDataChunkSize = int(maxDataChunkSize)
